@@ -24,6 +24,10 @@ def main():
     for f in os.listdir(src):
         if f.endswith(('.diff', '.go', '.txt', '.md', '.sh')):
             shutil.copy(os.path.join(src, f), os.path.join(dst, f))
+    # the patch as it applied to /repo's HEAD at validation time (3-way merged if /repo moved on)
+    applied = os.path.join(ROOT, 'work/seedlogs', name, 'patch.applied.diff')
+    if os.path.exists(applied) and os.path.getsize(applied) > 0:
+        shutil.copy(applied, os.path.join(dst, 'patch.diff'))
     m = re.match(r'SEED \S+ demo_clean=(\S+) suite=(\S+) demo_patched=(\S+) checks:(.*)', line)
     checks = {}
     for tok in m.group(4).split():
